@@ -25,7 +25,9 @@ TECHNIQUE = ('stateful property-based testing (Hypothesis rule-based state '
              'prints after each edit history')
 RULE = ('Histories of <= 14 steps over projects of 2-4 translation units and '
         '0-6 headers (names with spaces, #, $, +, @, sub-directories) that '
-        'include each other transitively and are not listed in build.bfg.  '
+        'include each other transitively and are not listed in build.bfg; one '
+        'project in three force-includes a precompiled header into every '
+        'unit, object names may contain space, $, # and a directory.  '
         'Rules: modify source, modify header, add a header and include it, '
         'stop including and delete a header, rename a header and update its '
         'includers, break / repair a source (compile error), build, clean.  '
@@ -45,6 +47,8 @@ ASSUMPTIONS = ['header names exclude the characters for which C04 records '
 
 WRAPBIN = os.path.join(VERIF, 'tools', 'wrapbin')
 KF_SOURCE = 'inc/cannot-proceed/renamed-source-after-failed-compile'
+PCH = 'pch.h'
+OBJ_NAMES = ['obj{}', 'obj{}', 'my obj{}', 'o$bj{}', 'o#bj{}', 'od ir/obj{}']
 HEADER_NAMES = ['h1.h', 'my hdr.h', 'h#2.h', 'h$3.h', 'inc/h4.h', 'h+5.h',
                 'h@6.h', 'inc/sub dir/h7.h', 'h8.hpp', 'h-9.h']
 
@@ -70,6 +74,8 @@ class IncMachine(RuleBasedStateMachine):
         self.built_closure = {}  # tu -> snapshot of closure at last compile
         self.counter = 0
         self.nbuilds = 0
+        self.pch = None          # header precompiled and force-included
+        self.objnames = None     # explicit object names
         self.nontrivial = False
         self.header_edit_after_build = False
         self.clock = None
@@ -114,6 +120,8 @@ class IncMachine(RuleBasedStateMachine):
             guard = 'G_' + self.ident(f).upper()
             L += ['#ifndef ' + guard, '#define ' + guard]
         for h in self.includes.get(f, []):
+            if h == self.pch and not isheader:
+                continue         # reaches the unit through pch= only
             rel = posixpath.relpath(h, posixpath.dirname(f) or '.')
             L.append('#include "{}"'.format(rel))
         calls = ''.join(' + hv_{}()'.format(self.ident(h))
@@ -161,6 +169,18 @@ class IncMachine(RuleBasedStateMachine):
             self.includes[t] = data.draw(st.lists(
                 st.sampled_from(headers), min_size=k, max_size=k,
                 unique=True)) if headers else []
+        if data.draw(st.integers(0, 2)) == 0:
+            # a precompiled header, force-included into every unit
+            self.pch = PCH
+            self.ver[PCH] = 9000
+            k = data.draw(st.integers(0, min(2, len(headers))))
+            self.includes[PCH] = data.draw(st.lists(
+                st.sampled_from(headers), min_size=k, max_size=k,
+                unique=True)) if headers else []
+            for t in self.tus:
+                self.includes[t] = [PCH] + self.includes[t]
+        self.objnames = [data.draw(st.sampled_from(OBJ_NAMES)).format(i)
+                         for i in range(ntu)]
         for f in list(self.ver):
             self.write(f)
         self.write_main_and_script()
@@ -168,9 +188,11 @@ class IncMachine(RuleBasedStateMachine):
                               backend=self.backend)
         if r.rc != 0:
             raise HarnessError('configure failed: ' + r.err[-800:])
-        self.history.append(['setup', list(self.tus), {h: self.includes[h]
-                                                 for h in headers},
-                             {t: self.includes[t] for t in self.tus}])
+        self.history.append(['setup', list(self.tus),
+                             {h: self.includes[h] for h in headers +
+                              ([PCH] if self.pch else [])},
+                             {t: self.includes[t] for t in self.tus},
+                             {'pch': self.pch, 'objnames': self.objnames}])
 
     def write_main_and_script(self):
         n = len(self.tus)
@@ -185,7 +207,12 @@ class IncMachine(RuleBasedStateMachine):
             sandbox.write_file(p, '\n'.join(main) + '\n')
         # explicit objects keep their names when a source is renamed
         L = ["project('c07')"]
-        L += ["o{} = object_file('obj{}', file={!r})".format(i, i, t)
+        kw = ''
+        if self.pch:
+            L.append('pch = precompiled_header(file={!r})'.format(self.pch))
+            kw = ', pch=pch'
+        names = self.objnames or ['obj{}'.format(i) for i in range(n)]
+        L += ["o{} = object_file({!r}, file={!r}{})".format(i, names[i], t, kw)
               for i, t in enumerate(self.tus)]
         L.append("executable('prog', ['main.c'] + [{}])".format(
             ', '.join('o{}'.format(i) for i in range(n))))
@@ -196,6 +223,9 @@ class IncMachine(RuleBasedStateMachine):
 
     def headers(self):
         return [f for f in self.ver if f not in self.tus]
+
+    def removable_headers(self):
+        return [f for f in self.headers() if f != self.pch]
 
     @rule(data=st.data(), suffix=st.sampled_from(['_v2', '_new', '2']))
     def rename_source(self, data, suffix):
@@ -261,10 +291,10 @@ class IncMachine(RuleBasedStateMachine):
         self.write(user)
         self.history.append(['add_header', h, user])
 
-    @precondition(lambda self: self.headers())
+    @precondition(lambda self: self.removable_headers())
     @rule(data=st.data())
     def delete_header(self, data):
-        h = data.draw(st.sampled_from(self.headers()))
+        h = data.draw(st.sampled_from(self.removable_headers()))
         if any(h in self.closure(t) for t in self.tus
                if self.built_closure.get(t)) or True:
             # some object's recorded dependencies may still mention it
@@ -279,13 +309,13 @@ class IncMachine(RuleBasedStateMachine):
         self.includes.pop(h, None)
         self.history.append(['delete_header', h])
 
-    @precondition(lambda self: self.headers())
+    @precondition(lambda self: self.removable_headers())
     @rule(data=st.data())
     def rename_header(self, data):
         cands = [h for h in HEADER_NAMES if h not in self.ver]
         if not cands:
             return
-        old = data.draw(st.sampled_from(self.headers()))
+        old = data.draw(st.sampled_from(self.removable_headers()))
         new = data.draw(st.sampled_from(cands))
         self.ver[new] = self.ver.pop(old)
         self.includes[new] = self.includes.pop(old, [])
@@ -320,8 +350,9 @@ class IncMachine(RuleBasedStateMachine):
             argv = [bytes.fromhex(a).decode('utf-8', 'surrogateescape')
                     for a in e['argv']]
             if '-c' in argv:
-                srcf = argv[argv.index('-c') + 1]
-                out.append(os.path.relpath(srcf, self.src))
+                srcf = os.path.relpath(argv[argv.index('-c') + 1], self.src)
+                if srcf != self.pch:
+                    out.append(srcf)
         return out
 
     @precondition(lambda self: self.nbuilds < 6)
@@ -429,9 +460,16 @@ class IncMachine(RuleBasedStateMachine):
         rec = self._vf_rec
         if self.nbuilds:
             ops = [h[0] for h in self.history]
+            extra = set()
+            if self.pch:
+                extra.add('precompiled-header')
+            if any(n != 'obj{}'.format(i)
+                   for i, n in enumerate(self.objnames or [])):
+                extra.add('special-object-name')
             rec.case({'op:' + o for o in set(ops)} | {self.backend,
-                                                      self.compiler},
-                     nontrivial=([self.backend, self.compiler, ops]
+                                                      self.compiler} | extra,
+                     nontrivial=([self.backend, self.compiler, ops,
+                                  bool(self.pch)]
                                  if self.nontrivial else None),
                      sample={'backend': self.backend,
                              'compiler': self.compiler,
@@ -466,11 +504,13 @@ def replay(task, case, rec):
             op = h[0]
             if op == 'setup':
                 tus, hinc, tinc = h[1], h[2], h[3]
+                if len(h) > 4:
+                    m.pch, m.objnames = h[4]['pch'], h[4]['objnames']
                 os.makedirs(m.src)
                 m.clock = sandbox.Clock(m.tmp)
                 m.tus = list(tus)
                 for i, (hh, inc) in enumerate(hinc.items()):
-                    m.ver[hh] = 100 * (i + 1)
+                    m.ver[hh] = 100 * (i + 1) if hh != m.pch else 9000
                     m.includes[hh] = list(inc)
                 for i, t in enumerate(m.tus):
                     m.ver[t] = i + 1
